@@ -24,7 +24,7 @@ CHECKS = {
                      "SynchronousHyperbandScheduler for geometric and custom bracket systems, against a lock-step reference "
                      "bracket model (slot filling, rung completion incl. failed jobs, top-n promotion, never-blocking suggest, "
                      "cycling offsets).",
-                note="Bounded: W<=3, T<=7 trials, <=2 failures, listed bracket systems; order among promoted trials of one rung free.",
+                note="Bounded: W<=3, T<=7 trials, <=2 failures, listed bracket systems; order among promoted trials of one rung free. Function-level exhaustive block: get_top_list on every rung of <=5 (thorough 6) entries x failed subsets x survivor rankings x next-rung size x mode.",
                 technique="explicit-state model checking of the implementation (BFS over event histories, digest dedup, reference-model oracle)"),
     "C01": dict(engine="tunerx", category="model_checking", design_ref="§2 C01",
                 text="Stateless deviation-bounded exploration of the real Tuner.run over a scripted backend that inherits the real "
